@@ -850,6 +850,9 @@ def run_c03(F, R):
     check_welford_cross(F, R, 'WelfordOnline')
     from .e_typed_props import no_absolute_thresholds
     no_absolute_thresholds(F, R, spec.FINITE_MEMORY, 'G0')
+    # K = N+1 for Roc: the base of the reported ratio is the value that left the window in THIS update (the refreshed register),
+    # not the register's entry value, which is one step older (K would be N+2)
+    roc_base(F, R)
     R.floor('W1', 17)
     R.floor('CEN', 30)
     R.decline('that paired +g/-g cancel exactly (K is not computed; "up to rounding" is not decided); Alma 2N and PFE N+M-1 are taken from the statement')
